@@ -40,7 +40,7 @@ m = {
     "engines": [{"name": "wscheck", "path": "checker/", "serves_properties": sorted(CLAIMS.keys()),
                  "kind_free_text": "repository-specific static checker on go/packages + go/ssa (x/tools v0.29.0, vendored): resolved-site enumeration, lock-state dataflow, CFG bracket rules, path-sensitive predicate abstraction (decision tables vs RFC oracles), ownership/alias rules, call-graph reachability. Executes no library code."}],
     "checks": checks,
-    "notes": "All checks are static (technique family: static analysis). Known findings: KNOWN_FINDINGS.txt (38 genuine defects F1-F38, all repaired by fix: commits in /repo, each with a reverse patch in regressions/ that its rule reports; no recorded finding is left, no check prints KNOWN-FINDING on the current tree). Sensitivity corpus: mutants/*.json via tools/mutants.py; seeded changes from independent sub-agents: seeded/.",
+    "notes": "All checks are static (technique family: static analysis). Known findings: KNOWN_FINDINGS.txt (40 genuine defects F1-F40, all repaired by fix: commits in /repo, each with a reverse patch in regressions/ that its rule reports; no recorded finding is left, no check prints KNOWN-FINDING on the current tree). Sensitivity corpus: mutants/*.json via tools/mutants.py; seeded changes from independent sub-agents: seeded/.",
     "not_applicable": na,
 }
 json.dump(m, open(os.path.join(V, "MANIFEST.json"), "w"), indent=1)
